@@ -12,6 +12,13 @@
 //!   allow req <fam>/<addr> <hex target>      → 403 empty | 200 ok | 200 render <marker value>
 //!   allow fault <kind> <fam>/<addr>          → ok                (garbage / half-open / reset / … connection)
 //! `<addr>` is the address as a decimal number, the peer is the address the listener's socket reports.
+//! round 2 (builder call orders, unix-socket endpoint, whole requests, keep-alive, accept errors, install()):
+//!   allow build <. | bop,bop,…>              → tcp <port> | uds | builderr   (L<port> U<id> P A<entry>, in call order)
+//!   allow rq <peer> <hex method> <hex target> <. | hexname:hexvalue,…>
+//!                                            → 403 empty | 200 ok | 200 head | 200 render <marker value>
+//!   allow ka <peer> <hexmethod:hextarget,…>  → the answers of one keep-alive connection joined by `|`
+//!   allow accepterr <errno>                  → ok   (listener.accept() failed: the process had no free descriptor)
+//! `<peer>` = `<fam>/<addr>/<source port>` or `unix`.
 //!
 //! implementation-side oracles (independent of the model; plain integer arithmetic on the entries the
 //! test generated): membership ⇒ 403+empty+no metric text / 200+"OK" / 200+body == handle.render() with
@@ -181,7 +188,12 @@ struct Resp {
 
 /// reads exactly one response (status line, headers, Content-Length body); hard deadline
 /// `carry` holds bytes already received that belong to the next response on the same connection
-fn read_response_carry(t: &mut TcpStream, deadline: Instant, carry: &mut Vec<u8>) -> Result<Resp, String> {
+fn read_response_carry<S: Read>(t: &mut S, deadline: Instant, carry: &mut Vec<u8>) -> Result<Resp, String> {
+    read_response_opt(t, deadline, carry, false)
+}
+
+/// `head_only`: the request was `HEAD` — the response has a Content-Length but no body bytes
+fn read_response_opt<S: Read + ?Sized>(t: &mut S, deadline: Instant, carry: &mut Vec<u8>, head_only: bool) -> Result<Resp, String> {
     let mut buf: Vec<u8> = std::mem::take(carry);
     let mut chunk = [0u8; 8192];
     let head_end;
@@ -221,6 +233,10 @@ fn read_response_carry(t: &mut TcpStream, deadline: Instant, carry: &mut Vec<u8>
         }
     }
     let mut body = buf[head_end..].to_vec();
+    if head_only {
+        *carry = body;
+        return Ok(Resp { status, head, body: vec![] });
+    }
     match clen {
         Some(n) => {
             while body.len() < n {
@@ -348,23 +364,30 @@ enum LKind {
     V6Lo,
     /// [::]:port, dual stack: IPv4 clients appear as ::ffff:a.b.c.d
     Dual,
+    /// unix domain socket (`with_http_uds_listener`): no TCP peer can reach it
+    Uds,
 }
 
 struct Listener {
     rt: Option<tokio::runtime::Runtime>,
     port: u16,
     kind: LKind,
-    handle: PrometheusHandle,
+    /// `None` for listeners started through `install()` (the recorder went into the global slot)
+    handle: Option<PrometheusHandle>,
     marker: metrics::Counter,
     marker_val: u64,
     label: String,
-    recorder: metrics_exporter_prometheus::PrometheusRecorder,
+    recorder: Option<metrics_exporter_prometheus::PrometheusRecorder>,
+    uds_path: Option<std::path::PathBuf>,
 }
 
 impl Drop for Listener {
     fn drop(&mut self) {
         if let Some(rt) = self.rt.take() {
             rt.shutdown_background();
+        }
+        if let Some(p) = self.uds_path.take() {
+            let _ = std::fs::remove_file(p);
         }
     }
 }
@@ -373,68 +396,17 @@ fn free_port(kind: LKind) -> std::io::Result<u16> {
     let l = match kind {
         LKind::V4Lo | LKind::V4Any => std::net::TcpListener::bind("127.0.0.1:0")?,
         LKind::V6Lo | LKind::Dual => std::net::TcpListener::bind("[::1]:0")?,
+        LKind::Uds => std::net::TcpListener::bind("127.0.0.1:0")?,
     };
     Ok(l.local_addr()?.port())
 }
 
 fn start_listener(kind: LKind, entries: &Option<Vec<Entry>>, label: &str) -> Result<Listener, String> {
-    let mut last = String::new();
-    for _attempt in 0..25 {
-        let port = free_port(kind).map_err(|e| e.to_string())?;
-        let bind: SocketAddr = match kind {
-            LKind::V4Lo => SocketAddr::from(([127, 0, 0, 1], port)),
-            LKind::V4Any => SocketAddr::from(([0, 0, 0, 0], port)),
-            LKind::V6Lo => SocketAddr::new(IpAddr::V6(Ipv6Addr::LOCALHOST), port),
-            LKind::Dual => SocketAddr::new(IpAddr::V6(Ipv6Addr::UNSPECIFIED), port),
-        };
-        let rt = tokio::runtime::Builder::new_multi_thread()
-            .worker_threads(2)
-            .enable_all()
-            .build()
-            .map_err(|e| format!("runtime: {}", e))?;
-        let mut b = PrometheusBuilder::new().with_http_listener(bind);
-        if let Some(es) = entries {
-            for e in es {
-                b = match b.add_allowed_address(e.text()) {
-                    Ok(b) => b,
-                    Err(err) => return Err(format!("add_allowed_address({:?}) failed: {}", e.text(), err)),
-                };
-            }
-        }
-        let built = {
-            let _g = rt.enter();
-            b.build()
-        };
-        match built {
-            Ok((recorder, exporter)) => {
-                rt.spawn(exporter);
-                let key = Key::from_parts(MARKER, vec![Label::new("case", label.to_string())]);
-                let marker = recorder.register_counter(&key, &METADATA);
-                let g = recorder.register_gauge(&Key::from_name("c18_gauge"), &METADATA);
-                g.set(-1.5);
-                let h = recorder.register_histogram(&Key::from_name("c18_hist"), &METADATA);
-                h.record(0.25);
-                h.record(4.0);
-                let handle = recorder.handle();
-                return Ok(Listener {
-                    rt: Some(rt),
-                    port,
-                    kind,
-                    handle,
-                    marker,
-                    marker_val: 0,
-                    label: label.to_string(),
-                    recorder,
-                });
-            }
-            Err(e) => {
-                // port raced away (EADDRINUSE) → retry with a fresh one
-                last = format!("{:?}", e);
-                rt.shutdown_background();
-            }
-        }
+    let mut ops = vec![BOp::Listen];
+    if let Some(es) = entries {
+        ops.extend(es.iter().cloned().map(BOp::Allow));
     }
-    Err(format!("could not start a listener after 25 attempts: {}", last))
+    start_listener_ops(kind, &ops, label, false, Start::Build).map(|x| x.0)
 }
 
 impl Listener {
@@ -525,7 +497,7 @@ fn gen_entry_v6(r: &mut Rng, env: &Env) -> Entry {
 
 /// allowlist shapes: none / single host / single block / nested / overlapping / mixed families
 fn gen_allowlist(r: &mut Rng, env: &Env, kind: LKind, out: &mut Out) -> Option<Vec<Entry>> {
-    let shape = r.weighted(&[2, 4, 5, 4, 4, 4, 2]);
+    let shape = r.weighted(&[2, 4, 5, 4, 4, 4, 2, 3]);
     let v6ish = matches!(kind, LKind::V6Lo | LKind::Dual);
     let mut es: Vec<Entry> = vec![];
     match shape {
@@ -581,11 +553,15 @@ fn gen_allowlist(r: &mut Rng, env: &Env, kind: LKind, out: &mut Out) -> Option<V
                 es.push(gen_entry_v4(r, env));
             }
         }
-        _ => {
+        6 => {
             out.count("allowlist:duplicates");
             let e = gen_entry_v4(r, env);
             es.push(e.clone());
             es.push(e);
+        }
+        _ => {
+            out.count("allowlist:long");
+            es = gen_long_allowlist(r, env);
         }
     }
     // other-family entries mixed in
@@ -767,7 +743,7 @@ fn do_scrape(l: &Listener, list: &Option<Vec<Entry>>, src: &Addr, target: &str, 
         }
     };
     let body_txt = String::from_utf8_lossy(&resp.body).to_string();
-    let rendered_now = l.handle.render();
+    let rendered_now = l.handle.as_ref().map(|h| h.render());
     let ans = if resp.status == 403 {
         if resp.body.is_empty() {
             "403 empty".to_string()
@@ -833,11 +809,13 @@ fn do_scrape(l: &Listener, list: &Option<Vec<Entry>>, src: &Addr, target: &str, 
                     "allowed peer was not served the current rendering",
                     &format!("{} :: got {:?}, marker is {}", ctx(), ans, l.marker_val),
                 );
-            } else if canonical(&body_txt) != canonical(&rendered_now) {
-                out.oracle_fail(
-                    "served body differs from PrometheusHandle::render() at that time",
-                    &format!("{} :: body {:?} vs render {:?}", ctx(), body_txt, rendered_now),
-                );
+            } else if let Some(rendered_now) = &rendered_now {
+                if canonical(&body_txt) != canonical(rendered_now) {
+                    out.oracle_fail(
+                        "served body differs from PrometheusHandle::render() at that time",
+                        &format!("{} :: body {:?} vs render {:?}", ctx(), clip(&body_txt), clip(rendered_now)),
+                    );
+                }
             }
         }
     }
@@ -847,8 +825,15 @@ fn do_scrape(l: &Listener, list: &Option<Vec<Entry>>, src: &Addr, target: &str, 
 // ---------------------------------------------------------------------------------------------
 // faults
 
+#[allow(dead_code)]
 const FAULTS: &[&str] =
     &["garbage", "halfopen", "reset", "bighead", "abort", "partial", "keepalive", "binary", "badversion", "concurrent"];
+
+/// the fault kinds of the model (`FAULTS`) plus two that have their own model ops: real accept errors and
+/// keep-alive connections carrying several requests
+const FAULTS2: &[&str] = &[
+    "garbage", "halfopen", "reset", "bighead", "abort", "partial", "keepalive", "binary", "badversion", "concurrent", "accepterr", "accepterr", "ka", "ka",
+];
 
 /// performs one faulty / unusual connection from `src`; returns sockets to keep open until the case ends.
 /// Oracle inside: a peer outside the allowlist never sees metric text, whatever it sends.
@@ -1013,7 +998,7 @@ fn do_concurrent(l: &Listener, list: &Option<Vec<Entry>>, peers: &[Addr], r: &mu
                     resp.status == 200 && resp.body == b"OK"
                 } else {
                     resp.status == 200
-                        && canonical(&String::from_utf8_lossy(&resp.body)) == canonical(&l.handle.render())
+                        && l.handle.as_ref().map_or(true, |h| canonical(&String::from_utf8_lossy(&resp.body)) == canonical(&h.render()))
                 };
                 if !ok {
                     out.oracle_fail(
@@ -1034,6 +1019,828 @@ fn do_concurrent(l: &Listener, list: &Option<Vec<Entry>>, peers: &[Addr], r: &mu
 }
 
 // ---------------------------------------------------------------------------------------------
+// round 2: builder call orders, unix-socket endpoint, whole requests (method / headers / source port),
+// keep-alive connections in the model, accept errors, install(), big renderings, long allowlists
+
+fn clip(s: &str) -> String {
+    if s.len() > 400 {
+        format!("{}… ({} bytes)", &s[..s.char_indices().map(|(i, _)| i).take_while(|i| *i <= 400).last().unwrap_or(0)], s.len())
+    } else {
+        s.to_string()
+    }
+}
+
+/// one builder call that concerns the listener
+#[derive(Clone, Debug)]
+enum BOp {
+    /// `with_http_listener(<the address of the case's listener kind>:<free port>)`
+    Listen,
+    /// `with_http_listener(127.0.0.1:<another free port>)` — meant to be overwritten by a later call
+    ListenDecoy,
+    /// `with_http_uds_listener(<fresh path>)`
+    Uds,
+    Allow(Entry),
+}
+
+#[derive(Clone, Copy, PartialEq, Debug)]
+enum Start {
+    /// `build()` inside the case's multi-thread runtime, exporter future spawned there
+    Build,
+    /// `install()` called on a thread without a runtime: own `current_thread` runtime on a background thread
+    InstallOwnRuntime,
+    /// `install()` called inside a runtime: exporter spawned on that runtime
+    InstallInRuntime,
+}
+
+static UDS_SEQ: std::sync::atomic::AtomicUsize = std::sync::atomic::AtomicUsize::new(0);
+
+fn register_fixture(recorder: &dyn Recorder, label: &str, big: bool) -> metrics::Counter {
+    let key = Key::from_parts(MARKER, vec![Label::new("case", label.to_string())]);
+    let marker = recorder.register_counter(&key, &METADATA);
+    let g = recorder.register_gauge(&Key::from_name("c18_gauge"), &METADATA);
+    g.set(-1.5);
+    let h = recorder.register_histogram(&Key::from_name("c18_hist"), &METADATA);
+    h.record(0.25);
+    h.record(4.0);
+    if big {
+        // a rendering of several hundred KB: many series with long label values
+        for i in 0..1500u32 {
+            let k = Key::from_parts(
+                "c18_bulk",
+                vec![Label::new("i", i.to_string()), Label::new("pad", "p".repeat(100 + (i as usize % 37)))],
+            );
+            recorder.register_counter(&k, &METADATA).increment(i as u64 + 1);
+        }
+    }
+    marker
+}
+
+/// Runs the builder calls `ops` IN THIS ORDER on `PrometheusBuilder::new()`, starts the endpoint the way `start`
+/// says and returns it with the model's op tokens (`L<port>`, `U<id>`, `A<entry>`).  When `ops` contains no
+/// destination call the builder's default (`0.0.0.0:9000`) is used.
+fn start_listener_ops(kind: LKind, ops: &[BOp], label: &str, big: bool, start: Start) -> Result<(Listener, String), String> {
+    let mut last = String::new();
+    for _attempt in 0..25 {
+        let mut b = PrometheusBuilder::new();
+        let mut toks: Vec<String> = vec![];
+        let mut port: u16 = 9000;
+        let mut final_kind = LKind::V4Any; // the default config listens on 0.0.0.0:9000
+        let mut uds_path: Option<std::path::PathBuf> = None;
+        for op in ops {
+            match op {
+                BOp::Listen => {
+                    port = free_port(kind).map_err(|e| e.to_string())?;
+                    let bind: SocketAddr = match kind {
+                        LKind::V4Lo | LKind::Uds => SocketAddr::from(([127, 0, 0, 1], port)),
+                        LKind::V4Any => SocketAddr::from(([0, 0, 0, 0], port)),
+                        LKind::V6Lo => SocketAddr::new(IpAddr::V6(Ipv6Addr::LOCALHOST), port),
+                        LKind::Dual => SocketAddr::new(IpAddr::V6(Ipv6Addr::UNSPECIFIED), port),
+                    };
+                    b = b.with_http_listener(bind);
+                    final_kind = if kind == LKind::Uds { LKind::V4Lo } else { kind };
+                    uds_path = None;
+                    toks.push(format!("L{}", port));
+                }
+                BOp::ListenDecoy => {
+                    let p = free_port(LKind::V4Lo).map_err(|e| e.to_string())?;
+                    b = b.with_http_listener(SocketAddr::from(([127, 0, 0, 1], p)));
+                    port = p;
+                    final_kind = LKind::V4Lo;
+                    uds_path = None;
+                    toks.push(format!("L{}", p));
+                }
+                BOp::Uds => {
+                    let n = UDS_SEQ.fetch_add(1, std::sync::atomic::Ordering::Relaxed);
+                    let path = std::env::temp_dir().join(format!("mv-c18-{}-{}.sock", std::process::id(), n));
+                    if n % 2 == 0 {
+                        // a stale file at the path: `new_http_uds_listener` removes it
+                        let _ = std::fs::write(&path, b"stale");
+                    }
+                    b = b.with_http_uds_listener(path.clone());
+                    final_kind = LKind::Uds;
+                    uds_path = Some(path);
+                    toks.push(format!("U{}", n));
+                }
+                BOp::Allow(e) => {
+                    b = match b.add_allowed_address(e.text()) {
+                        Ok(b) => b,
+                        Err(err) => return Err(format!("add_allowed_address({:?}) failed: {}", e.text(), err)),
+                    };
+                    toks.push(format!("A{}", e.tok()));
+                }
+            }
+        }
+        let tokline = crate::util::list(toks.into_iter());
+        match start {
+            Start::Build => {
+                let rt = tokio::runtime::Builder::new_multi_thread()
+                    .worker_threads(2)
+                    .enable_all()
+                    .build()
+                    .map_err(|e| format!("runtime: {}", e))?;
+                let built = {
+                    let _g = rt.enter();
+                    b.build()
+                };
+                match built {
+                    Ok((recorder, exporter)) => {
+                        rt.spawn(exporter);
+                        let marker = register_fixture(&recorder, label, big);
+                        let handle = recorder.handle();
+                        return Ok((
+                            Listener {
+                                rt: Some(rt),
+                                port,
+                                kind: final_kind,
+                                handle: Some(handle),
+                                marker,
+                                marker_val: 0,
+                                label: label.to_string(),
+                                recorder: Some(recorder),
+                                uds_path,
+                            },
+                            tokline,
+                        ));
+                    }
+                    Err(e) => {
+                        // port raced away (EADDRINUSE) → retry with a fresh one
+                        last = format!("{:?}", e);
+                        rt.shutdown_background();
+                        if !ops.iter().any(|o| matches!(o, BOp::Listen | BOp::ListenDecoy | BOp::Uds)) {
+                            return Err(format!("default-port-busy: {}", last));
+                        }
+                    }
+                }
+            }
+            Start::InstallOwnRuntime | Start::InstallInRuntime => {
+                // `install()` consumes the process-wide recorder slot: at most one call per process succeeds
+                let res = if start == Start::InstallOwnRuntime {
+                    std::thread::spawn(move || std::panic::catch_unwind(std::panic::AssertUnwindSafe(|| b.install())))
+                        .join()
+                        .unwrap_or_else(|p| Err(p))
+                        .map(|r| (r, None))
+                } else {
+                    let rt = tokio::runtime::Builder::new_multi_thread()
+                        .worker_threads(2)
+                        .enable_all()
+                        .build()
+                        .map_err(|e| format!("runtime: {}", e))?;
+                    let r = std::panic::catch_unwind(std::panic::AssertUnwindSafe(|| rt.block_on(async move { b.install() })));
+                    r.map(|r| (r, Some(rt)))
+                };
+                let (res, rt) = match res {
+                    Ok(x) => x,
+                    Err(_) => return Err(format!("install() panicked ({:?})", start)),
+                };
+                let installed = match res {
+                    Ok(()) => true,
+                    Err(metrics_exporter_prometheus::BuildError::FailedToSetGlobalRecorder(_)) => false,
+                    Err(e) => {
+                        last = format!("{:?}", e);
+                        if let Some(rt) = rt {
+                            rt.shutdown_background();
+                        }
+                        continue;
+                    }
+                };
+                let marker = if installed {
+                    let m = metrics::counter!(MARKER, "case" => label.to_string());
+                    metrics::gauge!("c18_gauge").set(-1.5);
+                    metrics::histogram!("c18_hist").record(0.25);
+                    m
+                } else {
+                    metrics::Counter::noop()
+                };
+                return Ok((
+                    Listener {
+                        rt,
+                        port,
+                        kind: final_kind,
+                        handle: None,
+                        marker,
+                        marker_val: 0,
+                        // an install() that lost the global slot still serves — from a recorder nobody can reach
+                        label: if installed { label.to_string() } else { "<orphan>".to_string() },
+                        recorder: None,
+                        uds_path,
+                    },
+                    tokline,
+                ));
+            }
+        }
+    }
+    Err(format!("could not start a listener after 25 attempts: {}", last))
+}
+
+fn connect_from_port(src: IpAddr, sport: u16, dst: SocketAddr) -> std::io::Result<TcpStream> {
+    use socket2::{Domain, SockAddr, Socket, Type};
+    let dom = if dst.is_ipv6() { Domain::IPV6 } else { Domain::IPV4 };
+    let s = Socket::new(dom, Type::STREAM, None)?;
+    s.set_reuse_address(true)?;
+    s.bind(&SockAddr::from(SocketAddr::new(src, sport)))?;
+    s.connect_timeout(&SockAddr::from(dst), CONNECT_TIMEOUT)?;
+    let t: TcpStream = s.into();
+    t.set_read_timeout(Some(IO_TIMEOUT))?;
+    t.set_write_timeout(Some(IO_TIMEOUT))?;
+    t.set_nodelay(true)?;
+    Ok(t)
+}
+
+const METHODS: &[&str] = &["GET", "POST", "OPTIONS", "HEAD", "PUT", "DELETE", "PATCH", "TRACE", "FOO", "GET", "OPTIONS", "HEAD"];
+
+/// request headers a denied peer might use to talk its way in (names lower-cased in the op)
+fn gen_headers(r: &mut Rng, list: &Option<Vec<Entry>>) -> Vec<(String, String)> {
+    let inside_ip = list
+        .as_ref()
+        .and_then(|es| es.first())
+        .map(|e| Addr { v6: e.addr.v6, bits: e.lo_hi().0 }.ip().to_string())
+        .unwrap_or_else(|| "127.0.0.1".to_string());
+    let pool: Vec<(&str, String)> = vec![
+        ("x-forwarded-for", inside_ip.clone()),
+        ("x-real-ip", inside_ip.clone()),
+        ("forwarded", format!("for={}", inside_ip)),
+        ("authorization", "Basic YWRtaW46YWRtaW4=".to_string()),
+        ("origin", "http://localhost".to_string()),
+        ("access-control-request-method", "GET".to_string()),
+        ("accept-encoding", "gzip, br".to_string()),
+        ("range", "bytes=0-9".to_string()),
+        ("content-length", "0".to_string()),
+        ("x-health", "/health".to_string()),
+        ("cookie", "allowed=1".to_string()),
+        ("via", "1.1 127.0.0.1".to_string()),
+    ];
+    let mut hs = vec![];
+    for _ in 0..r.range(0, 3) {
+        let (k, v) = pool[r.below(pool.len())].clone();
+        if !hs.iter().any(|(k2, _): &(String, String)| k2 == k) {
+            hs.push((k.to_string(), v));
+        }
+    }
+    hs
+}
+
+fn request_bytes(method: &str, target: &str, headers: &[(String, String)], close: bool) -> Vec<u8> {
+    let mut s = format!("{} {} HTTP/1.1\r\nHost: c18.test\r\n", method, target);
+    for (k, v) in headers {
+        s.push_str(&format!("{}: {}\r\n", k, v));
+    }
+    if close {
+        s.push_str("Connection: close\r\n");
+    }
+    s.push_str("\r\n");
+    s.into_bytes()
+}
+
+fn header_value<'a>(head: &'a str, name: &str) -> Vec<&'a str> {
+    head.split("\r\n").skip(1).filter_map(|l| l.split_once(':')).filter(|(k, _)| k.eq_ignore_ascii_case(name)).map(|(_, v)| v.trim()).collect()
+}
+
+/// classification of one response for the model + the oracles that need no model
+fn classify(l: &Listener, method: &str, resp: &Resp, ctx: &str, out: &mut Out) -> String {
+    let clen: Vec<&str> = header_value(&resp.head, "content-length");
+    if method == "HEAD" {
+        return if resp.status == 403 {
+            if clen.iter().all(|c| *c == "0") { "403 empty".to_string() } else { "403 body".to_string() }
+        } else if resp.status == 200 {
+            "200 head".to_string()
+        } else {
+            format!("{} other", resp.status)
+        };
+    }
+    if clen.len() != 1 || clen[0].parse::<usize>().ok() != Some(resp.body.len()) {
+        out.oracle_fail("Content-Length does not match the body", &format!("{} :: {:?} vs {} body bytes", ctx, clen, resp.body.len()));
+    }
+    if resp.status == 403 {
+        return if resp.body.is_empty() { "403 empty".to_string() } else { "403 body".to_string() };
+    }
+    if resp.status != 200 {
+        return format!("{} other", resp.status);
+    }
+    let ct = header_value(&resp.head, "content-type");
+    if ct != ["text/plain"] {
+        out.oracle_fail("served response does not carry Content-Type: text/plain (exactly once)", &format!("{} :: {:?}", ctx, ct));
+    }
+    if resp.body == b"OK" {
+        return "200 ok".to_string();
+    }
+    let body_txt = String::from_utf8_lossy(&resp.body).to_string();
+    if let Some(h) = &l.handle {
+        let now = h.render();
+        if canonical(&body_txt) != canonical(&now) {
+            out.oracle_fail(
+                "served body differs from PrometheusHandle::render() at that time",
+                &format!("{} :: body {:?} vs render {:?}", ctx, clip(&body_txt), clip(&now)),
+            );
+        }
+    }
+    match expo::check_exposition(&body_txt) {
+        Ok(fams) => {
+            let v = fams
+                .iter()
+                .find(|f| f.name == MARKER)
+                .and_then(|f| f.samples.iter().find(|(_, ls, _)| ls.iter().any(|(k, v)| k == "case" && *v == l.label)))
+                .map(|(_, _, v)| v.clone());
+            match v {
+                Some(v) => format!("200 render {}", v),
+                None => "200 render-without-marker".to_string(),
+            }
+        }
+        Err(e) => {
+            out.oracle_fail("200 body is not well-formed exposition text", &format!("{} :: {}", ctx, e));
+            "200 unparsable".to_string()
+        }
+    }
+}
+
+/// ORACLE for a whole request, independent of the model
+fn judge(l: &Listener, allowed: bool, method: &str, target: &str, resp: &Resp, ans: &str, ctx: &str, out: &mut Out) {
+    if !allowed {
+        out.count("req:outside");
+        if resp.status != 403 || !resp.body.is_empty() || ans != "403 empty" {
+            out.oracle_fail(
+                "peer outside every listed network did not get 403 with an empty body",
+                &format!("{} :: got {} with {} body bytes ({})", ctx, resp.status, resp.body.len(), ans),
+            );
+        }
+        if contains_metric_text(&resp.body) || contains_metric_text(resp.head.as_bytes()) {
+            out.oracle_fail("metric data sent to a peer outside every listed network", ctx);
+        }
+        return;
+    }
+    out.count("req:served-expected");
+    let want = if method == "HEAD" {
+        "200 head".to_string()
+    } else if path_of(target) == "/health" {
+        "200 ok".to_string()
+    } else if l.label == "<orphan>" {
+        "200 render-without-marker".to_string()
+    } else {
+        format!("200 render {}", l.marker_val)
+    };
+    if ans != want {
+        out.oracle_fail(
+            "allowed peer was not served (200 with the current rendering, OK for /health)",
+            &format!("{} :: got {:?}, expected {:?}", ctx, ans, want),
+        );
+    }
+}
+
+fn hdr_tok(hs: &[(String, String)]) -> String {
+    crate::util::list(hs.iter().map(|(k, v)| format!("{}:{}", hexs(k), hexs(v))))
+}
+
+/// one whole request (any method, extra headers, chosen source port) on a fresh TCP connection
+fn do_rq(
+    l: &Listener,
+    list: &Option<Vec<Entry>>,
+    src: &Addr,
+    sport: u16,
+    method: &str,
+    target: &str,
+    headers: &[(String, String)],
+    out: &mut Out,
+) -> Option<(String, String)> {
+    let (dst, seen) = l.route(src)?;
+    let allowed = oracle_allowed2(list, src, &seen);
+    let mut t = match connect_from_port(src.ip(), sport, dst) {
+        Ok(t) => t,
+        Err(e) if sport != 0 => {
+            // privileged / busy port not available here: any port
+            let _ = e;
+            out.count("rq:source-port-unavailable");
+            match connect_from_port(src.ip(), 0, dst) {
+                Ok(t) => t,
+                Err(_) => return None,
+            }
+        }
+        Err(e) => {
+            if matches!(e.kind(), std::io::ErrorKind::AddrNotAvailable | std::io::ErrorKind::InvalidInput) {
+                out.count("peer:unbindable");
+                return None;
+            }
+            UNANSWERED.fetch_add(1, std::sync::atomic::Ordering::Relaxed);
+            out.oracle_fail("listener refused a connection", &format!("{} from {}: {}", method, src.ip(), e));
+            return None;
+        }
+    };
+    let port = t.local_addr().map(|a| a.port()).unwrap_or(0);
+    if port < 1024 {
+        out.count("rq:privileged-source-port");
+    }
+    let op = format!("allow rq {}/{} {} {} {}", seen.tok(), port, hexs(method), hexs(target), hdr_tok(headers));
+    let ctx = format!(
+        "allowlist [{}] listener {:?} peer {}:{} (seen as {}) {} {:?} headers {:?}",
+        list.as_ref().map_or("<none>".to_string(), |es| es.iter().map(|e| e.text()).collect::<Vec<_>>().join(", ")),
+        l.kind,
+        src.ip(),
+        port,
+        seen.ip(),
+        method,
+        target,
+        headers
+    );
+    out.count(&format!("rq:method-{}", method));
+    let mut carry = vec![];
+    let res = t
+        .write_all(&request_bytes(method, target, headers, true))
+        .map_err(|e| format!("write: {:?}", e.kind()))
+        .and_then(|_| read_response_opt(&mut t, Instant::now() + IO_TIMEOUT, &mut carry, method == "HEAD"));
+    let resp = match res {
+        Ok(r) => r,
+        Err(e) => {
+            UNANSWERED.fetch_add(1, std::sync::atomic::Ordering::Relaxed);
+            out.oracle_fail("well-formed request was not answered", &format!("{} :: {}", ctx, e));
+            return Some((op, format!("noanswer {}", e.replace(' ', "_"))));
+        }
+    };
+    if !carry.is_empty() {
+        out.oracle_fail("bytes after the response", &format!("{} :: {} bytes", ctx, carry.len()));
+    }
+    let ans = classify(l, method, &resp, &ctx, out);
+    judge(l, allowed, method, target, &resp, &ans, &ctx, out);
+    Some((op, ans))
+}
+
+/// several requests on ONE connection (keep-alive, written at once = pipelined); TCP or unix
+fn do_ka(
+    l: &Listener,
+    list: &Option<Vec<Entry>>,
+    src: Option<&Addr>,
+    reqs: &[(String, String)],
+    out: &mut Out,
+) -> Option<(String, String)> {
+    let mut bytes = vec![];
+    for (i, (m, t)) in reqs.iter().enumerate() {
+        bytes.extend_from_slice(&request_bytes(m, t, &[], i + 1 == reqs.len()));
+    }
+    let dl = Instant::now() + IO_TIMEOUT;
+    let mut answers: Vec<String> = vec![];
+    let reqtok = crate::util::list(reqs.iter().map(|(m, t)| format!("{}:{}", hexs(m), hexs(t))));
+    let (peer_tok, allowed, ctx);
+    let mut carry = vec![];
+    let mut run = |s: &mut dyn ReadWrite, allowed: bool, ctx: &str, out: &mut Out| -> Result<(), String> {
+        s.write_all(&bytes).map_err(|e| format!("write: {:?}", e.kind()))?;
+        for (m, t) in reqs {
+            let resp = read_response_opt(&mut *s, dl, &mut carry, m == "HEAD")?;
+            let c = format!("{} :: request {} {:?} of a keep-alive connection", ctx, m, t);
+            let ans = classify(l, m, &resp, &c, out);
+            judge(l, allowed, m, t, &resp, &ans, &c, out);
+            answers.push(ans);
+        }
+        Ok(())
+    };
+    let res = match src {
+        Some(src) => {
+            let (dst, seen) = l.route(src)?;
+            allowed = oracle_allowed2(list, src, &seen);
+            let mut t = connect_from_port(src.ip(), 0, dst).ok()?;
+            let port = t.local_addr().map(|a| a.port()).unwrap_or(0);
+            peer_tok = format!("{}/{}", seen.tok(), port);
+            ctx = format!("listener {:?} peer {} (seen as {})", l.kind, src.ip(), seen.ip());
+            run(&mut t, allowed, &ctx, out)
+        }
+        None => {
+            let path = l.uds_path.as_ref()?;
+            allowed = true;
+            peer_tok = "unix".to_string();
+            ctx = format!("unix-socket listener {:?}", path);
+            match std::os::unix::net::UnixStream::connect(path) {
+                Ok(mut t) => {
+                    let _ = t.set_read_timeout(Some(IO_TIMEOUT));
+                    let _ = t.set_write_timeout(Some(IO_TIMEOUT));
+                    run(&mut t, allowed, &ctx, out)
+                }
+                Err(e) => Err(format!("connect: {:?}", e.kind())),
+            }
+        }
+    };
+    let op = format!("allow ka {} {}", peer_tok, reqtok);
+    out.count("ka:connections");
+    out.count_n("ka:requests", reqs.len() as u64);
+    match res {
+        Ok(()) => {
+            if !carry.is_empty() {
+                out.oracle_fail("bytes after the last response on a connection", &format!("{} :: {} bytes", ctx, carry.len()));
+            }
+            Some((op, answers.join("|")))
+        }
+        Err(e) => {
+            UNANSWERED.fetch_add(1, std::sync::atomic::Ordering::Relaxed);
+            out.oracle_fail(
+                "requests of a keep-alive connection were not all answered",
+                &format!("{} :: {} of {} answered, then {}", ctx, answers.len(), reqs.len(), e),
+            );
+            Some((op, format!("noanswer {}", e.replace(' ', "_"))))
+        }
+    }
+}
+
+trait ReadWrite: Read + Write {}
+impl<T: Read + Write> ReadWrite for T {}
+
+fn gen_ka_reqs(r: &mut Rng) -> Vec<(String, String)> {
+    (0..r.range(2, 4)).map(|_| (r.pick_str(METHODS).to_string(), if r.chance(1, 3) { "/health".to_string() } else { gen_target(r) })).collect()
+}
+
+// --- accept errors: the process runs out of file descriptors while clients sit in the listen backlog ---------
+
+#[repr(C)]
+struct RLimit {
+    cur: u64,
+    max: u64,
+}
+extern "C" {
+    fn getrlimit(resource: i32, rlim: *mut RLimit) -> i32;
+    fn setrlimit(resource: i32, rlim: *const RLimit) -> i32;
+}
+#[cfg(target_os = "linux")]
+const RLIMIT_NOFILE: i32 = 7;
+
+/// Provokes real `accept()` errors (EMFILE) at the listener: `k` clients connect (the kernel completes the
+/// handshakes into the backlog) and send their request while the process has no free descriptor, so every
+/// `listener.accept()` fails; then the descriptors are released.  The property demands that these clients and
+/// everybody after them are served.  Returns false when the errors could not be provoked (nothing is claimed then).
+fn do_accept_errors(l: &mut Listener, list: &Option<Vec<Entry>>, peers: &[Addr], r: &mut Rng, out: &mut Out) -> bool {
+    use socket2::{Domain, SockAddr, Socket, Type};
+    let k = r.range(1, 3);
+    let mut jobs: Vec<(Addr, SocketAddr, Addr, Socket)> = vec![];
+    for _ in 0..k {
+        let src = *r.pick(peers);
+        let Some((dst, seen)) = l.route(&src) else { continue };
+        let dom = if dst.is_ipv6() { Domain::IPV6 } else { Domain::IPV4 };
+        let Ok(s) = Socket::new(dom, Type::STREAM, None) else { continue };
+        if s.bind(&SockAddr::from(SocketAddr::new(src.ip(), 0))).is_err() {
+            continue;
+        }
+        jobs.push((src, dst, seen, s));
+    }
+    if jobs.is_empty() {
+        return false;
+    }
+    let mut old = RLimit { cur: 0, max: 0 };
+    if unsafe { getrlimit(RLIMIT_NOFILE, &mut old) } != 0 {
+        return false;
+    }
+    let max_fd = std::fs::read_dir("/proc/self/fd")
+        .map(|d| d.filter_map(|e| e.ok()?.file_name().to_str()?.parse::<u64>().ok()).max().unwrap_or(0))
+        .unwrap_or(0);
+    if max_fd == 0 {
+        return false;
+    }
+    // no descriptor number above the highest one in use, then fill every hole below it
+    let low = RLimit { cur: (max_fd + 1).min(old.cur), max: old.max };
+    if unsafe { setrlimit(RLIMIT_NOFILE, &low) } != 0 {
+        return false;
+    }
+    let mut fill: Vec<std::fs::File> = vec![];
+    while let Ok(f) = std::fs::File::open("/dev/null") {
+        fill.push(f);
+        if fill.len() > 100_000 {
+            break;
+        }
+    }
+    // the process is out of descriptors: connect + send (needs none)
+    let mut streams: Vec<(Addr, Addr, TcpStream)> = vec![];
+    for (src, dst, seen, s) in jobs {
+        if s.connect_timeout(&SockAddr::from(dst), CONNECT_TIMEOUT).is_ok() {
+            let mut t: TcpStream = s.into();
+            let _ = t.set_nodelay(true);
+            let _ = t.write_all(&request_bytes("GET", "/metrics", &[], true));
+            streams.push((src, seen, t));
+        }
+    }
+    // while exhausted nobody can be accepted: no answer may arrive (this is how the failing accept is observed)
+    let mut provoked = !streams.is_empty();
+    for (_, _, t) in streams.iter_mut() {
+        let _ = t.set_read_timeout(Some(Duration::from_millis(120)));
+        let mut b = [0u8; 1];
+        match t.peek(&mut b) {
+            Ok(n) if n > 0 => provoked = false,
+            _ => {}
+        }
+    }
+    drop(fill);
+    unsafe { setrlimit(RLIMIT_NOFILE, &old) };
+    if !provoked {
+        out.count("accepterr:not-provoked");
+        return false;
+    }
+    out.count("accepterr:provoked");
+    out.op("allow accepterr 24", "ok");
+    // the clients that sat in the backlog are served now …
+    for (src, seen, mut t) in streams {
+        let _ = t.set_read_timeout(Some(IO_TIMEOUT));
+        let port = t.local_addr().map(|a| a.port()).unwrap_or(0);
+        let op = format!("allow rq {}/{} {} {} .", seen.tok(), port, hexs("GET"), hexs("/metrics"));
+        let allowed = oracle_allowed2(list, &src, &seen);
+        let ctx = format!("client {} (seen as {}) connected while accept() was failing with EMFILE, listener {:?}", src.ip(), seen.ip(), l.kind);
+        let mut carry = vec![];
+        match read_response_opt(&mut t, Instant::now() + IO_TIMEOUT, &mut carry, false) {
+            Ok(resp) => {
+                let ans = classify(l, "GET", &resp, &ctx, out);
+                judge(l, allowed, "GET", "/metrics", &resp, &ans, &ctx, out);
+                out.op(&op, &ans);
+            }
+            Err(e) => {
+                UNANSWERED.fetch_add(1, std::sync::atomic::Ordering::Relaxed);
+                out.oracle_fail("client that connected during accept errors was never served", &format!("{} :: {}", ctx, e));
+                out.op(&op, &format!("noanswer {}", e.replace(' ', "_")));
+            }
+        }
+    }
+    true
+}
+
+/// the unix-socket endpoint: every client is served whatever allowlist the builder was given
+fn run_uds_case(r: &mut Rng, l: &mut Listener, list: &Option<Vec<Entry>>, out: &mut Out) {
+    let Some(path) = l.uds_path.clone() else { return };
+    let no_list: Option<Vec<Entry>> = None;
+    let _ = list;
+    for _ in 0..r.range(3, 6) {
+        if r.chance(1, 2) {
+            let n = r.range(1, 1000) as u64;
+            l.marker.increment(n);
+            l.marker_val += n;
+            out.op(&format!("allow inc {}", n), "ok");
+        }
+        if r.chance(1, 3) {
+            let reqs = gen_ka_reqs(r);
+            if let Some((op, ans)) = do_ka(l, &no_list, None, &reqs, out) {
+                out.op(&op, &ans);
+            }
+            continue;
+        }
+        let method = r.pick_str(METHODS);
+        let target = if r.chance(1, 3) { "/health".to_string() } else { gen_target(r) };
+        let headers = gen_headers(r, &no_list);
+        let op = format!("allow rq unix {} {} {}", hexs(method), hexs(&target), hdr_tok(&headers));
+        let ctx = format!("unix-socket listener {:?} {} {:?}", path, method, target);
+        out.count("rq:unix");
+        let res = std::os::unix::net::UnixStream::connect(&path).map_err(|e| format!("connect: {:?}", e.kind())).and_then(|mut t| {
+            let _ = t.set_read_timeout(Some(IO_TIMEOUT));
+            let _ = t.set_write_timeout(Some(IO_TIMEOUT));
+            t.write_all(&request_bytes(method, &target, &headers, true)).map_err(|e| format!("write: {:?}", e.kind()))?;
+            let mut carry = vec![];
+            read_response_opt(&mut t, Instant::now() + IO_TIMEOUT, &mut carry, method == "HEAD")
+        });
+        match res {
+            Ok(resp) => {
+                let ans = classify(l, method, &resp, &ctx, out);
+                judge(l, true, method, &target, &resp, &ans, &ctx, out);
+                out.op(&op, &ans);
+            }
+            Err(e) => {
+                UNANSWERED.fetch_add(1, std::sync::atomic::Ordering::Relaxed);
+                out.oracle_fail("well-formed request on the unix socket was not answered", &format!("{} :: {}", ctx, e));
+                out.op(&op, &format!("noanswer {}", e.replace(' ', "_")));
+            }
+        }
+        // a garbage connection in between must not disturb the next client
+        if r.chance(1, 3) {
+            if let Ok(mut t) = std::os::unix::net::UnixStream::connect(&path) {
+                let _ = t.write_all(b"\x16\x03\x01garbage\r\n\r\n");
+                out.count("fault:unix-garbage");
+            }
+        }
+    }
+    // a TCP client cannot reach this endpoint at all
+    out.count("case:uds-endpoint");
+}
+
+/// order of the builder calls for a case: where the destination calls stand relative to `add_allowed_address`
+fn gen_build_ops(r: &mut Rng, entries: &Option<Vec<Entry>>, uds_ok: bool, out: &mut Out) -> Vec<BOp> {
+    let allows: Vec<BOp> = entries.as_ref().map_or(vec![], |es| es.iter().cloned().map(BOp::Allow).collect());
+    let shape = r.weighted(&[3, 4, 3, 2, 2, if uds_ok { 2 } else { 0 }]);
+    let mut ops: Vec<BOp> = vec![];
+    match shape {
+        0 => {
+            out.count("build:listener-first");
+            ops.push(BOp::Listen);
+            ops.extend(allows);
+        }
+        1 => {
+            out.count("build:listener-last");
+            ops.extend(allows);
+            ops.push(BOp::Listen);
+        }
+        2 => {
+            out.count("build:listener-in-the-middle");
+            let k = r.below(allows.len() + 1);
+            ops.extend(allows[..k].iter().cloned());
+            ops.push(BOp::Listen);
+            ops.extend(allows[k..].iter().cloned());
+        }
+        3 => {
+            out.count("build:listener-reconfigured");
+            ops.push(BOp::ListenDecoy);
+            ops.extend(allows);
+            ops.push(BOp::Listen);
+        }
+        4 => {
+            out.count("build:uds-then-back-to-tcp");
+            let k = r.below(allows.len() + 1);
+            ops.extend(allows[..k].iter().cloned());
+            ops.push(BOp::Uds);
+            ops.extend(allows[k..].iter().cloned());
+            ops.push(BOp::Listen);
+        }
+        _ => {
+            out.count("build:ends-in-uds");
+            let k = r.below(allows.len() + 1);
+            ops.extend(allows[..k].iter().cloned());
+            if r.chance(1, 2) {
+                ops.push(BOp::Listen);
+            }
+            ops.extend(allows[k..].iter().cloned());
+            ops.push(BOp::Uds);
+        }
+    }
+    ops
+}
+
+/// long allowlist: many blocks no peer of this machine is in, and one block that matters at a chosen position
+fn gen_long_allowlist(r: &mut Rng, env: &Env) -> Vec<Entry> {
+    let n = r.range(12, 70);
+    let mut es: Vec<Entry> = (0..n)
+        .map(|i| Entry { addr: Addr::v4(0x0a00_0000 | ((i as u32) << 8) | (r.below(256) as u32)), plen: Some(if r.chance(1, 4) { 32 } else { 24 }) })
+        .collect();
+    let mut hit = gen_entry_v4(r, env);
+    hit.addr = Addr::v4(rand_lo4(r));
+    if let Some(p) = hit.plen {
+        hit.plen = Some(p.max(8));
+    }
+    let pos = match r.below(4) {
+        0 => 0,
+        1 => es.len(),
+        2 => 8.min(es.len()),
+        _ => r.below(es.len() + 1),
+    };
+    es.insert(pos, hit);
+    es
+}
+
+/// `install()` on both of its branches (once per process each; at most one of them gets the global recorder slot)
+fn run_install_cases(cfg: &Cfg, env: &Env, out: &mut Out) {
+    let root = Rng::new(cfg.seed);
+    let order = if cfg.seed % 2 == 0 { [Start::InstallOwnRuntime, Start::InstallInRuntime] } else { [Start::InstallInRuntime, Start::InstallOwnRuntime] };
+    for (i, start) in order.into_iter().enumerate() {
+        let mut r = root.fork(2_000_000 + i as u64);
+        out.case(&format!("install={:?} seed={}", start, cfg.seed));
+        let entries = vec![parse_entry_text("127.0.0.1"), parse_entry_text("127.9.0.0/16")];
+        let list = Some(entries.clone());
+        let mut ops: Vec<BOp> = entries.iter().cloned().map(BOp::Allow).collect();
+        ops.push(BOp::Listen);
+        let label = format!("install{}", i);
+        let (mut l, toks) = match start_listener_ops(LKind::V4Lo, &ops, &label, false, start) {
+            Ok(x) => x,
+            Err(e) => {
+                out.oracle_fail("install() did not start the scrape endpoint", &format!("{:?}: {}", start, e));
+                continue;
+            }
+        };
+        out.count(&format!("install:{:?}:{}", start, if l.label == "<orphan>" { "global-slot-taken" } else { "installed" }));
+        let orphan = l.label == "<orphan>";
+        if !orphan {
+            out.op(&format!("allow build {}", toks), &format!("tcp {}", l.port));
+        }
+        let peers = [Addr::v4(0x7f00_0001), Addr::v4(0x7f09_0102), Addr::v4(0x7f00_0002), Addr::v4(0x7f0a_0000)];
+        let mut keep = vec![];
+        for round in 0..2 {
+            for p in &peers {
+                if !orphan && r.chance(1, 2) {
+                    let n = r.range(1, 1000) as u64;
+                    l.marker.increment(n);
+                    l.marker_val += n;
+                    out.op(&format!("allow inc {}", n), "ok");
+                }
+                let m = r.pick_str(METHODS);
+                let t = if r.chance(1, 3) { "/health".to_string() } else { "/metrics".to_string() };
+                if let Some((op, ans)) = do_rq(&l, &list, p, 0, m, &t, &gen_headers(&mut r, &list), out) {
+                    if !orphan {
+                        out.op(&op, &ans);
+                    }
+                }
+            }
+            if round == 0 {
+                for kind in ["garbage", "halfopen", "reset", "partial"] {
+                    if let Some(op) = do_fault(&l, &list, kind, r.pick(&peers), &mut r, out, &mut keep) {
+                        if !orphan {
+                            out.op(&op, "ok");
+                        }
+                    }
+                }
+                if !orphan {
+                    do_accept_errors(&mut l, &list, &peers, &mut r, out);
+                }
+            }
+        }
+        let _ = env;
+        // the listener of an installed exporter lives as long as the process: leave it
+        std::mem::forget(l);
+    }
+}
+
+// ---------------------------------------------------------------------------------------------
 // cases
 
 struct CaseSpec {
@@ -1045,6 +1852,12 @@ struct CaseSpec {
     n_peers: usize,
     n_scrapes: usize,
     faults: usize,
+    /// `None`: the classic chain `with_http_listener(..).add_allowed_address(..)*` (op `allow new`);
+    /// `Some(true)`: a generated order of builder calls (op `allow build`), possibly ending in a unix socket;
+    /// `Some(false)`: no destination call at all — the builder's default `0.0.0.0:9000`
+    build_order: Option<bool>,
+    /// several hundred KB of rendering
+    big: bool,
 }
 
 fn run_case(r: &mut Rng, env: &Env, spec: CaseSpec, tag: &str, out: &mut Out) {
@@ -1103,21 +1916,76 @@ fn run_case(r: &mut Rng, env: &Env, spec: CaseSpec, tag: &str, out: &mut Out) {
     };
     // 2. the listener
     let label = format!("{}", out.n_cases);
-    let mut l = match start_listener(spec.kind, &list, &label) {
-        Ok(l) => l,
-        Err(e) => {
-            out.oracle_fail("listener could not be started", &e);
-            return;
+    let mut l = match spec.build_order {
+        None if !spec.big => {
+            let l = match start_listener(spec.kind, &list, &label) {
+                Ok(l) => l,
+                Err(e) => {
+                    out.oracle_fail("listener could not be started", &e);
+                    return;
+                }
+            };
+            out.op(
+                &format!("allow new {}", match &list {
+                    None => "~".to_string(),
+                    Some(es) => crate::util::list(es.iter().map(|e| e.tok())),
+                }),
+                "ok",
+            );
+            l
+        }
+        order => {
+            let ops: Vec<BOp> = match order {
+                Some(true) => gen_build_ops(r, &list, true, out),
+                Some(false) => list.as_ref().map_or(vec![], |es| es.iter().cloned().map(BOp::Allow).collect()),
+                None => {
+                    let mut o = vec![BOp::Listen];
+                    o.extend(list.as_ref().map_or(vec![], |es| es.iter().cloned().map(BOp::Allow).collect()));
+                    o
+                }
+            };
+            let kind = if order == Some(false) { LKind::V4Any } else { spec.kind };
+            let (l, toks) = match start_listener_ops(kind, &ops, &label, spec.big, Start::Build) {
+                Ok(x) => x,
+                Err(e) if e.starts_with("default-port-busy") => {
+                    // somebody else on this machine listens on 9000: nothing to observe
+                    out.count("build:default-port-busy");
+                    return;
+                }
+                Err(e) => {
+                    out.oracle_fail("listener could not be started", &e);
+                    return;
+                }
+            };
+            // what was built is observed from outside: a unix socket at the path / a TCP listener on the port
+            let observed = if let Some(p) = &l.uds_path {
+                if std::os::unix::net::UnixStream::connect(p).is_ok() { "uds".to_string() } else { "nothing-listens".to_string() }
+            } else {
+                let probe: SocketAddr = match l.kind {
+                    LKind::V6Lo | LKind::Dual => SocketAddr::new(IpAddr::V6(Ipv6Addr::LOCALHOST), l.port),
+                    _ => SocketAddr::from(([127, 0, 0, 1], l.port)),
+                };
+                if TcpStream::connect_timeout(&probe, CONNECT_TIMEOUT).is_ok() { format!("tcp {}", l.port) } else { "nothing-listens".to_string() }
+            };
+            out.op(&format!("allow build {}", toks), &observed);
+            if observed == "nothing-listens" {
+                out.oracle_fail("the built endpoint does not accept connections", &format!("builder calls {}", toks));
+                return;
+            }
+            if spec.big {
+                out.count("case:big-rendering");
+            }
+            if order == Some(false) {
+                out.count("build:default-address");
+            }
+            l
         }
     };
-    out.op(
-        &format!("allow new {}", match &list {
-            None => "~".to_string(),
-            Some(es) => crate::util::list(es.iter().map(|e| e.tok())),
-        }),
-        "ok",
-    );
-    out.count(&format!("listener:{:?}", spec.kind));
+    out.count(&format!("listener:{:?}", l.kind));
+    if l.kind == LKind::Uds {
+        run_uds_case(r, &mut l, &list, out);
+        return;
+    }
     let peers = gen_peers(r, env, &list, spec.n_peers);
     if peers.is_empty() {
         out.count("case:no-peer");
@@ -1137,7 +2005,15 @@ fn run_case(r: &mut Rng, env: &Env, spec: CaseSpec, tag: &str, out: &mut Out) {
             l.marker_val += n;
             out.op(&format!("allow inc {}", n), "ok");
         }
-        if let Some((op, ans)) = do_scrape(l, &list, peer, target, out) {
+        let res = if r.chance(1, 2) {
+            let method = r.pick_str(METHODS);
+            let sport = if r.chance(1, 3) { r.range(1, 1023) as u16 } else { 0 };
+            let hs = gen_headers(r, &list);
+            do_rq(l, &list, peer, sport, method, target, &hs, out)
+        } else {
+            do_scrape(l, &list, peer, target, out)
+        };
+        if let Some((op, ans)) = res {
             out.op(&op, &ans);
             if ans.starts_with("403") {
                 seen_out = true;
@@ -1163,8 +2039,19 @@ fn run_case(r: &mut Rng, env: &Env, spec: CaseSpec, tag: &str, out: &mut Out) {
     // 3. faults, then an allowed peer must still be served
     if spec.faults > 0 {
         for _ in 0..spec.faults {
-            let kind = r.pick_str(FAULTS);
+            let kind = r.pick_str(FAULTS2);
             let p = *r.pick(&peers);
+            if kind == "accepterr" {
+                do_accept_errors(&mut l, &list, &peers, r, out);
+                continue;
+            }
+            if kind == "ka" {
+                let reqs = gen_ka_reqs(r);
+                if let Some((op, ans)) = do_ka(&l, &list, Some(&p), &reqs, out) {
+                    out.op(&op, &ans);
+                }
+                continue;
+            }
             if kind == "concurrent" {
                 do_concurrent(&l, &list, &peers, r, out);
                 out.op(&format!("allow fault concurrent {}", l.route(&p).map_or(p, |x| x.1).tok()), "ok");
@@ -1267,12 +2154,45 @@ pub fn run(cfg: &Cfg, out: &mut Out) {
             n_peers: 5,
             n_scrapes: 3,
             faults: if i % 4 == 2 { 3 } else { 0 },
+            build_order: None,
+            big: i == 9,
         };
         run_case(&mut r, &env, spec, &format!("corpus={} seed={}", i, cfg.seed), out);
         if gave_up() {
             break;
         }
     }
+    // round-2 corpus: the builder's default address, the unix socket, orders of builder calls, accept errors
+    for (i, (order, es, faults)) in [
+        (Some(false), vec!["127.0.0.0/8"], 0usize),
+        (Some(false), vec![], 0),
+        (Some(true), vec!["127.0.0.1", "127.0.3.0/24"], 4),
+        (Some(true), vec!["127.0.0.1", "127.0.3.0/24"], 4),
+        (Some(true), vec!["127.0.0.1", "127.0.3.0/24"], 4),
+        (Some(true), vec!["127.0.0.1", "127.0.3.0/24"], 4),
+        (Some(true), vec![], 4),
+    ]
+    .into_iter()
+    .enumerate()
+    {
+        let mut r = root.fork(3_000_000 + i as u64);
+        let spec = CaseSpec {
+            kind: LKind::V4Lo,
+            has_list: !es.is_empty(),
+            entries: es.iter().map(|s| parse_entry_text(s)).collect(),
+            invalid: vec![],
+            n_peers: 4,
+            n_scrapes: 3,
+            faults,
+            build_order: order,
+            big: i == 3,
+        };
+        run_case(&mut r, &env, spec, &format!("corpus2={} seed={}", i, cfg.seed), out);
+        if gave_up() {
+            break;
+        }
+    }
+    run_install_cases(cfg, &env, out);
     // generated
     for i in 0..cfg.cases {
         let mut r = root.fork(i as u64);
@@ -1302,6 +2222,8 @@ pub fn run(cfg: &Cfg, out: &mut Out) {
             n_peers: r.range(2, 5),
             n_scrapes: r.range(1, 4),
             faults: if r.chance(1, 2) { r.range(2, 5) } else { 0 },
+            build_order: if r.chance(2, 3) { Some(true) } else { None },
+            big: r.chance(1, 10),
         };
         run_case(&mut r, &env, spec, &format!("seed={} i={}", cfg.seed, i), out);
         if gave_up() {
